@@ -449,7 +449,7 @@ class Program:
         rng = self.rng
         q = rng.below(self.np); v = rng.choice(self.s.vars)
         sl = self.free_slot(q)
-        if sl is None or len(self.slots[q]) >= 6:
+        if sl is None or len(self.slots[q]) >= 8:
             return False
         r = self.make_put(q, v)
         if not r:
@@ -496,16 +496,24 @@ class Program:
         self.stats['iget'] += 1
         return True
 
-    def get_lines(self, ranks, v=None):
+    def fixed_get(self, q, v, st, cnt):
+        acc = access_tokens(self.rng, v, st, cnt, [1] * v.nd, 't%d' % v.xtype, v.xtype, False, form='vara')
+        p = parse_acc(acc); p['memk'] = v.xtype
+        keys = part_keys(v.vid, p['parts'])
+        assert all(self.can_read(q, k) for k in keys), 'directed read breaks the element rules'
+        return acc, p, keys
+
+    def get_lines(self, ranks, v=None, per=None):
         """get of each rank in `ranks` (collective group when not independent)"""
         rng = self.rng
         v = v or rng.choice(self.s.vars)
-        family = None if self.indep else ('n' if (rng.chance(1, 5) and not any(self.slots)) else 'a')
-        per = {}
-        for q in ranks:
-            g = self.make_get(q, v, family, allow_varn=not self.slots[q])
-            if g:
-                per[q] = g
+        family = None if self.indep else ('n' if (per is None and rng.chance(1, 5) and not any(self.slots)) else 'a')
+        if per is None:
+            per = {}
+            for q in ranks:
+                g = self.make_get(q, v, family, allow_varn=not self.slots[q])
+                if g:
+                    per[q] = g
         if not per:
             return False
         coll = not self.indep
@@ -799,10 +807,10 @@ class Program:
         for _ in range(6):
             x = rng.below(100)
             if self.indep:
-                if x < 30: ok = self.op_put_indep()
+                if x < 26: ok = self.op_put_indep()
                 elif x < 45: ok = self.op_iput()
-                elif x < 60: ok = self.op_get()
-                elif x < 70: ok = self.op_wait()
+                elif x < 57: ok = self.op_get()
+                elif x < 66: ok = self.op_wait()
                 elif x < 75: ok = self.op_cancel()
                 elif x < 80: ok = self.want_iget and self.op_iget()
                 elif x < 86: ok = self.op_flush()
@@ -810,10 +818,10 @@ class Program:
                 elif x < 95: ok = self.op_inq()
                 else: ok = self.op_mode()
             else:
-                if x < 28: ok = self.op_put_group()
+                if x < 24: ok = self.op_put_group()
                 elif x < 45: ok = self.op_iput()
-                elif x < 58: ok = self.op_get()
-                elif x < 68: ok = self.op_wait()
+                elif x < 56: ok = self.op_get()
+                elif x < 64: ok = self.op_wait()
                 elif x < 73: ok = self.op_cancel()
                 elif x < 78: ok = self.want_iget and self.op_iget()
                 elif x < 84: ok = self.op_flush()
@@ -993,4 +1001,38 @@ def d_waitmix(p):
     p.close()
 
 
-DIRECTED = dict(waitmix=d_waitmix, status=d_status, cancel=d_cancel, begin=d_begin, rounds=d_rounds, retain=d_retain)
+def d_cancelpat(p, kmax=5):
+    """every pattern of valid / cancelled entries for k <= kmax nonblocking puts of different sizes in one flush
+    (fixed-size variable: record counts play no role); rank q uses the pattern rotated by q"""
+    from .gen import Var
+    p.s.fmt = 1; p.s.types = [1, 2, 3, 4, 5, 6]
+    p.s.dims = [('y', 16 * p.np)]
+    p.s.vars = [Var(0, 'f', 4, [0], [16 * p.np], False)]
+    p.prologue()
+    f = p.s.vars[0]
+    for k in range(1, kmax + 1):
+        for mask in range(2 ** k):
+            order = {}; first = {}
+            for q in range(p.np):
+                m = (mask + 5 * q) % (2 ** k)
+                ss = [p.emit_iput(q, f, p.fixed_put(q, f, [16 * q + 3 * i], [1 + (i + mask) % 3]), p.free_slot(q)) for i in range(k)]
+                for i, sl in enumerate(ss):
+                    if m >> i & 1:
+                        p.emit_cancel(q, sl)
+                keep = [sl.slot for i, sl in enumerate(ss) if not m >> i & 1]
+                order[q] = keep[mask % (len(keep) or 1):] + keep[:mask % (len(keep) or 1)]
+                first[q] = next((sl for i, sl in enumerate(ss) if not m >> i & 1), None)
+            p.op_wait(explicit=order)
+            # every rank reads back the first entry it kept (read own writes after the flush)
+            per = {q: p.fixed_get(q, f, list(sl.keys[0][1]), [len(sl.keys)]) for q, sl in first.items() if sl is not None}
+            if per:
+                p.get_lines(list(range(p.np)), v=f, per=per)
+    p.get_lines(list(range(p.np)), v=f)
+    p.close()
+
+
+def d_cancelpat4(p):
+    d_cancelpat(p, 4)
+
+
+DIRECTED = dict(cancelpat=d_cancelpat, cancelpat4=d_cancelpat4, waitmix=d_waitmix, status=d_status, cancel=d_cancel, begin=d_begin, rounds=d_rounds, retain=d_retain)
